@@ -816,6 +816,10 @@ def run(repo, rep):
     from . import c08
     c08.carry_rule(repo, rep)
     c08.digit_rules(repo, rep)
+    # dispatch tables of closures / lazily evaluated conversions in the coordinate classes
+    from . import common as _cm
+    _cm.late_binding_rule(repo, rep, ['geodepy.coord'])
+    stored_as_given_rule(repo, rep)
     alg.reset()
     rep.trust('opaque call atoms carry every formal parameter of the callee (defaults explicit); constructors of the coordinate classes are evaluated')
     rep.assume('latitude/longitude held as plain numbers are floats (type(x) == float folds to true for symbolic numbers in this module)')
@@ -908,3 +912,42 @@ def controls(repo):
         calls[0].args = calls[0].args[:3]
     out.append(('default-ellipsoid', repo.variant({'geodepy/coord.py': replace_in_function(src, 'CoordCart.geo', drop_ell)}), 'CoordCart.geo'))
     return out
+
+
+def stored_as_given_rule(repo, rep):
+    """the coordinate classes keep what they are given: a constructor argument that is an OBJECT of the library (the projection of a CoordTM)
+    is stored itself, not a copy of it.  The conversions recognise the ISG by `prj == isg`, and Projection defines no __eq__: equality is
+    identity, a value-equal copy is "some other projection" and an ISG zone number is then refused as a UTM zone."""
+    mc = repo.module('geodepy.constants')
+    for cname in ('CoordCart', 'CoordGeo', 'CoordTM'):
+        cls = repo.cls('geodepy.coord', cname)
+        init = cls.init()
+        if init is None:
+            continue
+        for p in init.params[1:]:
+            if p.name not in ('projection', 'ellipsoid'):
+                continue
+            key = 'R-WIRE::geodepy/coord.py::%s.__init__::%s-stored-as-given' % (cname, p.name)
+            kcls = mc.classes.get('Projection' if p.name == 'projection' else 'Ellipsoid')
+            has_eq = kcls is not None and kcls.find('__eq__') is not None
+            ev = mk_eval(repo)
+            arg = Obj(kcls, {}, origin='param:%s' % p.name)
+            args = dict((q.name, Rat.sym('a_' + q.name)) for q in init.params[1:] if q.name != p.name)
+            try:
+                o = ev.construct(cls, [], dict(args, **{p.name: arg}), None)
+            except Exception:
+                o = None
+            got = o.fields.get(p.name) if isinstance(o, Obj) else None
+            w = where(init, init.node)
+            if got is arg:
+                rep.holds('R-WIRE', key, w, '%s stores the %s object it is given' % (cname, p.name))
+            elif isinstance(got, IteV) and (got.a is arg or got.b is arg) and not has_eq:
+                other = got.b if got.a is arg else got.a
+                rep.violated('R-WIRE', key, w, '%s keeps the %s it is given only under a condition and otherwise another object (%s): %s defines no __eq__, the conversions compare '
+                             'projections by identity (`prj == isg`) - a copy of the ISG is not the ISG, CoordTM(561, E, N, projection=isg).geo(ans) raises "Invalid Zone"'
+                             % (cname, p.name, describe_type(other), kcls.name), expected='self.%s = %s' % (p.name, p.name), actual='a copy under a condition')
+            elif isinstance(got, Obj) and not has_eq:
+                rep.violated('R-WIRE', key, w, '%s stores another object than the %s it is given (a copy): %s defines no __eq__, the conversions compare projections by identity '
+                             '(`prj == isg`) - a copy of the ISG is not the ISG' % (cname, p.name, kcls.name), expected='self.%s = %s' % (p.name, p.name), actual='a copy')
+            else:
+                rep.undecided('R-WIRE', key, w, 'what %s stores as %s was not resolved' % (cname, p.name))
